@@ -244,6 +244,7 @@ func runCheck(prop, tier string, overlay map[string][]byte, mutantMode bool) (*C
 	if !mutantMode {
 		type vq struct {
 			rep  int
+			site string
 			text string
 			ans  string
 		}
@@ -252,14 +253,37 @@ func runCheck(prop, tier string, overlay map[string][]byte, mutantMode bool) (*C
 			if rep.Unsupported != "" {
 				continue
 			}
-			step := 1
-			if len(rep.CoverPCs) > 16 {
-				step = len(rep.CoverPCs) / 16
+			// sample per return statement: up to 4 paths spread over the paths that end there, so that a
+			// contradiction confined to one branch (e.g. only the success paths) is seen
+			bySite := map[string][]int{}
+			var sites []string
+			for j := range rep.CoverPCs {
+				sx := ""
+				if j < len(rep.CoverSites) {
+					sx = rep.CoverSites[j]
+				}
+				if _, ok := bySite[sx]; !ok {
+					sites = append(sites, sx)
+				}
+				bySite[sx] = append(bySite[sx], j)
 			}
-			for j := 0; j < len(rep.CoverPCs); j += step {
-				pc := rep.CoverPCs[j]
-				q := &Query{Name: "vacuity", Axioms: sv.axioms, Asserts: pc}
-				vqs = append(vqs, &vq{rep: i, text: "; vacuity guard: this must not be unsat\n" + q.SMT(false)})
+			per := 4
+			if len(sites) > 12 {
+				per = 2
+			}
+			for _, sx := range sites {
+				idxs := bySite[sx]
+				step := 1
+				if len(idxs) > per {
+					step = len(idxs) / per
+				}
+				taken := 0
+				for k := 0; k < len(idxs) && taken < per; k += step {
+					pc := rep.CoverPCs[idxs[k]]
+					q := &Query{Name: "vacuity", Axioms: sv.axioms, Asserts: pc}
+					vqs = append(vqs, &vq{rep: i, site: sx, text: "; vacuity guard: this must not be unsat\n" + q.SMT(false)})
+					taken++
+				}
 			}
 		}
 		var wg sync.WaitGroup
@@ -298,9 +322,30 @@ func runCheck(prop, tier string, overlay map[string][]byte, mutantMode bool) (*C
 			if hasFailure {
 				continue // a failed obligation is assumed afterwards, which may make the rest of the path contradictory
 			}
+			// per return statement: all sampled paths refuted = that return is unreachable under the contracts in force
+			siteN, siteRef := map[string]int{}, map[string]int{}
+			for _, v := range vqs {
+				if v.rep == i {
+					siteN[v.site]++
+					if v.ans == "unsat" {
+						siteRef[v.site]++
+					}
+				}
+			}
+			var deadSites []string
+			for sx, k := range siteN {
+				if siteRef[sx] == k && !contains(rep.DeadOK, sx) {
+					deadSites = append(deadSites, sx)
+				}
+			}
+			sort.Strings(deadSites)
 			if n == 0 || refuted == n {
 				o := &Obligation{Name: fmt.Sprintf("%s/%s/meta:vacuity", prop, rep.Key), Kind: "meta", Fn: rep.Key, Result: "unsupported",
 					Unsupp: fmt.Sprintf("vacuity guard: no return path is reachable (%d paths, %d refuted): contradictory precondition, axiom or invariant", n, refuted)}
+				solveList = append(solveList, o)
+			} else if len(deadSites) > 0 {
+				o := &Obligation{Name: fmt.Sprintf("%s/%s/meta:vacuity-return-sites", prop, rep.Key), Kind: "meta", Fn: rep.Key, Result: "unsupported",
+					Unsupp: fmt.Sprintf("vacuity guard: every sampled path to the return at %s is contradictory: the contracts in force make that return unreachable (declare it `unreachable <file:line>` in the contract if that is intended)", strings.Join(deadSites, ", "))}
 				solveList = append(solveList, o)
 			} else {
 				res.Vacuity = append(res.Vacuity, fmt.Sprintf("%s: %d of %d sampled return paths not refutable (assert-false canary fails as it must)", rep.Key, n-refuted, n))
